@@ -191,12 +191,34 @@ def run(ctx):
                 ok, why = span_value_ok(f, rv, fname)
                 ctx.ob("C14.F3.span-field-provenance", "%s%s|%s" % (tag, f.path, fname), ok, why, f.where(bb))
         ctx.floor("C14.F3 writes of Span fields" + tag, nsp, 6)
-        # offsets move only in advance
-        for f, bb, w, p in query.field_accessors(prog, "minijinja::compiler::lexer::Tokenizer", "current_offset"):
+        # whoever moves the byte offset keeps line and column in step with the text it skips: the writer is found by
+        # the write, not by name (a second advancing helper is fine as long as it counts the newlines it skips)
+        TOK = "minijinja::compiler::lexer::Tokenizer"
+        writers = {}
+        for f, bb, w, p in query.field_accessors(prog, TOK, "current_offset"):
             if w:
-                ctx.ob("C14.F3.offset-moves-only-in-advance", tag + f.path,
-                       f.path in ("minijinja::compiler::lexer::Tokenizer::advance",
-                                  "minijinja::compiler::lexer::Tokenizer::new"), "", f.where(bb))
+                writers.setdefault(f.path, (f, bb))
+        lines_w = {f.path for f, bb, w, p in query.field_accessors(prog, TOK, "current_line") if w}
+        cols_w = {f.path for f, bb, w, p in query.field_accessors(prog, TOK, "current_col") if w}
+        nw = 0
+        for path, (f, bb) in sorted(writers.items()):
+            inits = [1 for _, _, st in f.all_stmts() if st.get("rv", {}).get("k") == "agg" and st["rv"].get("adt") == TOK]
+            if inits:
+                continue        # the constructor
+            nw += 1
+            nl_test = False
+            for sb in f.reachable:
+                t = f.term(sb)
+                if t["k"] == "switch" and any(v == "10" for v, _ in t["arms"]):
+                    nl_test = True
+            ok = path in lines_w and path in cols_w and nl_test
+            ctx.ob("C14.F3.offset-writer-tracks-lines", tag + path, ok,
+                   "this function moves Tokenizer::current_offset over input text but %s: after it skips a newline "
+                   "every later token, span and error line is off" % (
+                       "does not update current_line" if path not in lines_w else
+                       "does not update current_col" if path not in cols_w else "never tests the skipped characters for a newline"),
+                   f.where(bb))
+        ctx.floor("C14.F3 functions moving the lexer offset" + tag, nw, 1)
         adv = prog.fn("minijinja::compiler::lexer::Tokenizer::advance")
         sliced = any("index" in c.name and "str" in c.name.lower() or "RangeTo" in c.full for c in adv.calls())
         ctx.ob("C14.F3.advance-slices-the-input", tag + adv.path, sliced,
